@@ -652,10 +652,30 @@ pub fn mutate(rng: &mut Rng, v: &mut Vec<u8>) {
     }
 }
 
+/// a Route Monitoring message around a LARGE well-formed UPDATE (C01's `gen_big`: 4096, 4097, ... 65535 octets): "an
+/// embedded UPDATE decodes exactly as it would on its own" has no 4096-octet limit - that limit is the BGP framing
+/// layer's, and `UpdateMessage::from_octets` accepts the PDU on its own (round-6 seed: `RouteMonitoring::check`
+/// refusing an embedded PDU above 4096 octets was a correspondence-only report)
+fn gen_rm_big(rng: &mut Rng, kind: usize, target: usize, exact: bool) -> (Vec<u8>, String) {
+    use crate::props::c01;
+    let (c, content) = c01::gen_big(rng, kind, target, exact);
+    let u = c01::ref_encode(&c, &content);
+    let mut v = gen_valid(rng, 100);
+    v.extend(u);
+    let l = v.len() as u32;
+    v[1..5].copy_from_slice(&l.to_be_bytes());
+    (v, c01::cfg_token(&c))
+}
+
 impl Prop for C15 {
     fn gen(&self, rng: &mut Rng, tier: Tier) -> Vec<String> {
         let n = match tier { Tier::Quick => 40_000, Tier::Thorough => 1_500_000 };
         let mut out = Vec::new();
+        for (k, (kind, target, exact)) in [(0usize, 4096usize, true), (1, 4097, true), (2, 9000, false), (3, 30000, false), (1, 65535, true), (4, 4443, false)].into_iter().enumerate() {
+            let _ = k;
+            let (v, cfg) = gen_rm_big(rng, kind, target, exact);
+            out.push(format!("bmpwf {} {}", hex(&v), cfg));
+        }
         for i in 0..n {
             let typ = (i % 7) as u8;
             if typ == 0 && i % 2 == 0 {
